@@ -291,6 +291,7 @@ class Run:
         r = fplemmas.f3_cells(limit_us=fplemmas.LIMIT_F3_US, step=1)
         p2 = fplemmas.f3_powers_of_two(fplemmas.LIMIT_F3_US)
         neg = fplemmas.f3_cells(limit_us=fplemmas.LIMIT_F3_US, step=1, claim="stored")
+        near = fplemmas.f3_cells(limit_us=fplemmas.LIMIT_F3_US, step=1, claim="near")
         smp = fplemmas.f3_sample(20000 if self.tier == "quick" else 2000000, seed=self.seed + 1)
         self.extra_cov.setdefault("lemmas", []).append(
             f"F3 fromtimestamp((T.timestamp()*1000000)/1000000) == T for every whole-microsecond instant from 1970 to 2100 + 31 days: "
@@ -298,7 +299,9 @@ class Run:
             f"{p2.get('points')} instants at powers of two (left out of the cells) evaluated under CPython: {'ok' if p2['ok'] else 'FAILED'}; negative control "
             f"('the stored float equals T') {'refuted as it must be' if not neg['ok'] else 'NOT refuted'}; CPython on {smp.get('points')} instants "
             f"(random + next to every binade boundary): {'agrees' if smp['ok'] else 'DISAGREES ' + smp.get('err', '')}")
-        good = r["ok"] and p2["ok"] and not neg["ok"] and smp["ok"]
+        self.extra_cov["lemmas"].append(f"F5 |T.timestamp()*1000000 - T| < 1/2 for the same instants (the encoding is strictly increasing): "
+                                        f"{'proved' if near['ok'] else 'FAILED ' + str(near)} ({near['time_s']} s, same cells; powers of two evaluated under CPython)")
+        good = r["ok"] and p2["ok"] and not neg["ok"] and smp["ok"] and near["ok"]
         self.extra_cov["obligations"] = self.extra_cov.get("obligations", 0) + 1
         self.extra_cov["discharged"] = self.extra_cov.get("discharged", 0) + (1 if good else 0)
         self.extra_cov.setdefault("ledger", {})[f"{self.pid}/lemma:F3"] = r["time_s"]
